@@ -109,7 +109,7 @@ def valid_request(draw, d):
         name = draw(st.sampled_from(WRITE_OPS))
         return machine.build(draw, d, PROFILE, name)
     if kind == 'candidates':
-        v = draw(st.sampled_from([39, 39, 38, 36, 34, 29, 25, 17, 16, 10]))
+        v = draw(st.sampled_from([39, 39, 38, 36, 34, 29, 26, 25, 17, 16, 10]))
         q = draw(bgen.queries(d, v))
         if draw(st.integers(0, 3)) == 0 and v >= 16:
             q.limit = draw(st.integers(1, 5))
